@@ -216,3 +216,63 @@ pub open spec fn dd_hints_hyp<T: SpecializeByConditional + RegisterDomain>() -> 
 pub open spec fn dd_unhinted_rel<T: SpecializeByConditional + RegisterDomain>(a: Map<AbstractIdentifier, T>) -> Map<AbstractIdentifier, T> {
     Map::new(a.dom(), |k: AbstractIdentifier| a[k].without_widening_hints_spec())
 }
+
+/// HYPOTHESIS of property C04 on the value domain T for `intersect` (unit interval_domain proves it for IntervalDomain;
+/// intersect_pre_spec = inv, equal widths <= 64 bit, lcm of the strides <= u64::MAX for 33..64 bit values):
+/// Ok(r) keeps every common member, Err only when there is no common member.
+pub open spec fn dd_intersect_hyp<T: SpecializeByConditional + RegisterDomain>() -> bool {
+    forall |a: T, b: T| #![trigger a.intersect_spec(&b)] a.intersect_pre_spec(&b) ==>
+        match a.intersect_spec(&b) {
+            Some(r) => forall |v: Bitvector| #![trigger r.gamma_spec(v)] a.gamma_spec(v) && b.gamma_spec(v) ==> r.gamma_spec(v),
+            None => forall |v: Bitvector| #![trigger a.gamma_spec(v)] #![trigger b.gamma_spec(v)] !(a.gamma_spec(v) && b.gamma_spec(v)),
+        }
+}
+
+/// the target k survives the intersection of the target maps: both hold it and the offsets intersect
+pub open spec fn dd_intersect_keeps<T: SpecializeByConditional + RegisterDomain>(a: Map<AbstractIdentifier, T>, b: Map<AbstractIdentifier, T>, k: AbstractIdentifier) -> bool {
+    a.contains_key(k) && b.contains_key(k) && a[k].intersect_spec(&b[k]) is Some
+}
+
+/// the intersected target map
+pub open spec fn dd_intersected_rel<T: SpecializeByConditional + RegisterDomain>(a: Map<AbstractIdentifier, T>, b: Map<AbstractIdentifier, T>) -> Map<AbstractIdentifier, T> {
+    Map::new(a.dom().filter(|k: AbstractIdentifier| dd_intersect_keeps(a, b, k)), |k: AbstractIdentifier| a[k].intersect_spec(&b[k])->Some_0)
+}
+
+/// what the closure of intersect_relative_values yields for one common target
+pub open spec fn dd_intersect_entry<T: SpecializeByConditional + RegisterDomain>(id: AbstractIdentifier, a: T, b: T) -> Option<(AbstractIdentifier, T)> {
+    match a.intersect_spec(&b) { Some(x) => Some((id, x)), None => None }
+}
+
+// ---- intersect -------------------------------------------------------------------------------------------------
+/// the absolute part after the field-wise step of `intersect` (before the two optional merges)
+pub open spec fn dd_isect_core_abs<T: SpecializeByConditional + RegisterDomain>(at: bool, aa: Option<T>, bt: bool, ba: Option<T>) -> Option<T> {
+    if at && !bt { ba } else if !at && bt { aa }
+    else if aa is Some && ba is Some { aa->Some_0.intersect_spec(&ba->Some_0) } else { None }
+}
+
+/// the target map after the field-wise step of `intersect`
+pub open spec fn dd_isect_core_rel<T: SpecializeByConditional + RegisterDomain>(at: bool, ar: Map<AbstractIdentifier, T>, bt: bool, br: Map<AbstractIdentifier, T>) -> Map<AbstractIdentifier, T> {
+    if at && !bt { br } else if !at && bt { ar } else { dd_intersected_rel(ar, br) }
+}
+
+/// "If one domain contains relative values and the other absolute values, then we have to assume that the relative values
+/// could represent any of the absolute values": first other's absolute part is merged in when self has targets ...
+pub open spec fn dd_isect_abs1<T: SpecializeByConditional + RegisterDomain>(at: bool, ar: Map<AbstractIdentifier, T>, aa: Option<T>, bt: bool, ba: Option<T>) -> Option<T> {
+    if ar.len() != 0 && ba is Some { dd_merged_abs(dd_isect_core_abs(at, aa, bt, ba), ba) } else { dd_isect_core_abs(at, aa, bt, ba) }
+}
+
+/// ... then self's absolute part when other has targets
+pub open spec fn dd_isect_abs2<T: SpecializeByConditional + RegisterDomain>(at: bool, ar: Map<AbstractIdentifier, T>, aa: Option<T>, bt: bool, br: Map<AbstractIdentifier, T>, ba: Option<T>) -> Option<T> {
+    if aa is Some && br.len() != 0 { dd_merged_abs(dd_isect_abs1(at, ar, aa, bt, ba), aa) } else { dd_isect_abs1(at, ar, aa, bt, ba) }
+}
+
+/// the preconditions of the calls of T::intersect and T::merge that DataDomain::intersect makes
+pub open spec fn dd_isect_pre<T: SpecializeByConditional + RegisterDomain>(at: bool, ar: Map<AbstractIdentifier, T>, aa: Option<T>, bt: bool, br: Map<AbstractIdentifier, T>, ba: Option<T>) -> bool {
+    &&& forall |id: AbstractIdentifier| #![trigger ar.contains_key(id)] #![trigger br.contains_key(id)]
+            ar.contains_key(id) && br.contains_key(id) ==> ar[id].intersect_pre_spec(&br[id])
+    &&& (aa is Some && ba is Some) ==> aa->Some_0.intersect_pre_spec(&ba->Some_0)
+    &&& (ar.len() != 0 && ba is Some && dd_isect_core_abs(at, aa, bt, ba) is Some)
+            ==> dd_isect_core_abs(at, aa, bt, ba)->Some_0.merge_pre_spec(&ba->Some_0)
+    &&& (aa is Some && br.len() != 0 && dd_isect_abs1(at, ar, aa, bt, ba) is Some)
+            ==> dd_isect_abs1(at, ar, aa, bt, ba)->Some_0.merge_pre_spec(&aa->Some_0)
+}
